@@ -204,8 +204,19 @@ func klRef(n []byte, e int, d, p, q []byte) *rsa.PrivateKey {
 	return &rsa.PrivateKey{PublicKey: rsa.PublicKey{N: new(big.Int).SetBytes(n), E: e}, D: new(big.Int).SetBytes(d), Primes: []*big.Int{new(big.Int).SetBytes(p), new(big.Int).SetBytes(q)}}
 }
 
+// klCRTFull: the CRT values have the full length of their prime (dP, qInv: P; dQ: Q) instead of
+// 8 bytes - needed where the serializer's length adjustment is the subject.
+var klCRTFull = false
+
 func klCRT(which string, k *rsa.PrivateKey) []byte {
-	v := verifrt.UF(which, 8, k.D.Bytes(), k.Primes[0].Bytes(), k.Primes[1].Bytes())
+	n := 8
+	if klCRTFull {
+		n = len(k.Primes[0].Bytes())
+		if which == "RSADQ" {
+			n = len(k.Primes[1].Bytes())
+		}
+	}
+	v := verifrt.UF(which+map[bool]string{false: "", true: "FULL"}[klCRTFull], n, k.D.Bytes(), k.Primes[0].Bytes(), k.Primes[1].Bytes())
 	verifrt.Assume(v[0] != 0)
 	return v
 }
@@ -480,4 +491,36 @@ func VerifH_serial_rsassapkcs1_keys() {
 	} else {
 		verifh.CheckKeyRoundTripOnly(pub, &publicKeySerializer{}, &publicKeyParser{}, kind, id, verifierTypeURL, tinkpb.KeyData_ASYMMETRIC_PUBLIC)
 	}
+}
+
+// The same round trip for a key whose primes differ in byte length (129 / 127 bytes, either
+// order) and whose CRT values have the full length of their prime: the serializer pads dP and
+// qInv to P's length and dQ to Q's.
+func VerifH_serial_rsassapkcs1_unbalanced() {
+	verifrt.EngineOnly() // crypto/rsa's Validate / Precompute are stubbed; DP, DQ, QInv are uninterpreted
+	l := &pssLog{}
+	klInstallRSA(l)
+	klCRTFull = true
+	variant, kind := klVariantPick()
+	id := verifrt.Uint32("id")
+	if kind == 3 {
+		id = 0
+	}
+	params, err := NewParameters(2048, SHA256, f4, variant)
+	verifrt.Assert(err == nil, "NewParameters")
+	pub, err := NewPublicKey(klHex(klN), id, params)
+	verifrt.Assert(err == nil, "NewPublicKey")
+	pl, ql := 129, 127
+	if verifrt.Choice("longer", 2) == 1 {
+		pl, ql = 127, 129
+	}
+	p, q, d := klInt("p", pl, 0, 0x55), klInt("q", ql, 0, 0x33), klInt("d", 256, 0, 0x11)
+	verifrt.Assume(p[0] != 0 && q[0] != 0 && d[0] != 0)
+	verifrt.Assume(klRSAValid(klRef(klHex(klN), f4, d, p, q))) // a genuine key (crypto/rsa's verdict is uninterpreted)
+	priv, err := NewPrivateKey(pub, PrivateKeyValues{P: klSD(p), Q: klSD(q), D: klSD(d)})
+	verifrt.Assert(err == nil && priv != nil, "NewPrivateKey accepts a valid key with primes of different lengths")
+	if err != nil {
+		return
+	}
+	verifh.CheckKeyRoundTrip(priv, &privateKeySerializer{}, &privateKeyParser{}, &parametersSerializer{}, &parametersParser{}, kind, id, signerTypeURL, tinkpb.KeyData_ASYMMETRIC_PRIVATE)
 }
